@@ -8,6 +8,7 @@ import (
 	"bytes"
 	"encoding/json"
 	"fmt"
+	"io"
 	"math/rand"
 	"os"
 	"os/exec"
@@ -16,6 +17,7 @@ import (
 	"strings"
 	"sync"
 	"sync/atomic"
+	"testing/iotest"
 
 	"tags.cncf.io/container-device-interface/schema"
 	specs "tags.cncf.io/container-device-interface/specs-go"
@@ -432,18 +434,35 @@ func checkC17(c *Ctx) {
 			}
 			return res{name, e}
 		}
+		// "a reader of JSON": readers differ in how they deliver the same bytes (all at
+		// once, one byte per call, the last bytes together with io.EOF, ...)
+		rk := r.Intn(5)
+		mkReader := func() io.Reader {
+			switch rk {
+			case 1:
+				return iotest.DataErrReader(bytes.NewReader(jb))
+			case 2:
+				return iotest.OneByteReader(bytes.NewReader(jb))
+			case 3:
+				return iotest.HalfReader(bytes.NewReader(jb))
+			case 4:
+				return iotest.DataErrReader(iotest.OneByteReader(strings.NewReader(string(jb))))
+			}
+			return bytes.NewReader(jb)
+		}
+		c.Count(fmt.Sprintf("reader_kind:%d", rk), 1)
 		entries := func(s *schema.Schema, tag string, full bool) []res {
 			out := []res{
 				run(tag+".ValidateData(json)", func() error { return s.ValidateData(jb) }),
 				run(tag+".ValidateData(yaml)", func() error { return s.ValidateData(yb) }),
 				run(tag+".ValidateFile(.json)", func() error { return s.ValidateFile(jf) }),
 				run(tag+".ValidateFile(.yaml)", func() error { return s.ValidateFile(yf) }),
-				run(tag+".ValidateReader(json)", func() error { return s.ValidateReader(bytes.NewReader(jb)) }),
+				run(tag+".ValidateReader(json)", func() error { return s.ValidateReader(mkReader()) }),
 			}
 			if full {
 				out = append(out,
 					run(tag+".ReadAndValidate(json)", func() error {
-						data, e := s.ReadAndValidate(bytes.NewReader(jb))
+						data, e := s.ReadAndValidate(mkReader())
 						if e == nil && !bytes.Equal(data, jb) {
 							return fmt.Errorf("ReadAndValidate returned different data")
 						}
